@@ -113,12 +113,6 @@ func sameList(got system.Collection, want []any) bool {
 	return true
 }
 
-func renderItems(xs []any) string {
-	c := make(system.Collection, len(xs))
-	copy(c, xs)
-	return clip(renderColl(c), 500)
-}
-
 // ---------------------------------------------------------------------------
 // criteria with a harness-side truth function
 
